@@ -22,7 +22,6 @@ import (
 	"fmt"
 	"go/token"
 	"go/types"
-	"strings"
 )
 
 type segCall struct {
@@ -96,13 +95,16 @@ func c02model(c *Ctx, a *c02) {
 	q := m.it.point(m.ptT, 0, 1)
 	next := int64(0)
 	ringT := m.polyT.Underlying().(*types.Slice).Elem()
-	mkRing := func(n int, closed bool) (oSlice, []oBoxPt) {
+	mkRing := func(n int, closed, far bool) (oSlice, []oBoxPt) {
 		var pts []oBoxPt
 		for i := 0; i < n; i++ {
 			next += 4
 			v := next
 			if i%2 == 0 {
 				v = -next
+			}
+			if far {
+				v = next + 4000 // the whole ring up and to the right of the query point
 			}
 			pts = append(pts, oBoxPt{v, v + 2})
 		}
@@ -116,18 +118,34 @@ func c02model(c *Ctx, a *c02) {
 		return m.sliceOf(ringT, vals), pts
 	}
 	type shape struct {
-		name  string
-		val   oval
-		rings [][]oBoxPt
+		name      string
+		val       oval
+		rings     [][]oBoxPt
+		far       [][]oBoxPt // rings whose box does not hold the query point (they may be skipped)
+		prefilter bool       // a shape that is about what the box pre-filter may skip
+	}
+	mkPolyFar := func(name string, spec [][3]int) shape { // {n, closed, far}
+		var rs []oval
+		sh := shape{name: name}
+		for _, sp := range spec {
+			r, pts := mkRing(sp[0], sp[1] == 1, sp[2] == 1)
+			rs = append(rs, r)
+			if sp[2] == 1 {
+				sh.far = append(sh.far, pts)
+				sh.prefilter = true
+			} else {
+				sh.rings = append(sh.rings, pts)
+			}
+		}
+		sh.val = m.sliceOf(m.polyT, rs)
+		return sh
 	}
 	mkPoly := func(name string, spec [][2]int) shape { // {n, closed}
-		var rs []oval
-		var all [][]oBoxPt
+		var s3 [][3]int
 		for _, sp := range spec {
-			r, pts := mkRing(sp[0], sp[1] == 1)
-			rs, all = append(rs, r), append(all, pts)
+			s3 = append(s3, [3]int{sp[0], sp[1], 0})
 		}
-		return shape{name, m.sliceOf(m.polyT, rs), all}
+		return mkPolyFar(name, s3)
 	}
 	var shapes []shape
 	shapes = append(shapes, mkPoly("Polygon(one open ring of 3)", [][2]int{{3, 0}}))
@@ -137,7 +155,18 @@ func c02model(c *Ctx, a *c02) {
 	{
 		p1 := mkPoly("", [][2]int{{3, 1}, {3, 0}})
 		p2 := mkPoly("", [][2]int{{4, 0}})
-		shapes = append(shapes, shape{"MultiPolygon(2 members)", m.sliceOf(m.mpolyT, []oval{p1.val, p2.val}), append(append([][]oBoxPt{}, p1.rings...), p2.rings...)})
+		shapes = append(shapes, shape{name: "MultiPolygon(2 members)", val: m.sliceOf(m.mpolyT, []oval{p1.val, p2.val}), rings: append(append([][]oBoxPt{}, p1.rings...), p2.rings...)})
+	}
+	// rings in an unusual order: the ring around the query point comes after a ring that lies
+	// away from it (a hole listed before its shell, two disjoint rings, an empty first ring)
+	shapes = append(shapes, mkPolyFar("Polygon(a ring away from the query point listed before the ring around it)", [][3]int{{3, 1, 1}, {4, 0, 0}}))
+	shapes = append(shapes, mkPolyFar("Polygon(rings around the query point before and after a ring away from it)", [][3]int{{3, 0, 0}, {4, 1, 1}, {3, 1, 0}}))
+	shapes = append(shapes, mkPolyFar("Polygon(an empty ring listed before the ring around the query point)", [][3]int{{0, 0, 1}, {3, 0, 0}}))
+	{
+		p1 := mkPolyFar("", [][3]int{{4, 1, 1}})
+		p2 := mkPolyFar("", [][3]int{{3, 0, 1}, {3, 1, 0}})
+		shapes = append(shapes, shape{name: "MultiPolygon(a member away from the query point, then a member whose second ring is around it)", val: m.sliceOf(m.mpolyT, []oval{p1.val, p2.val}),
+			rings: p2.rings, far: append(append([][]oBoxPt{}, p1.far...), p2.far...), prefilter: true})
 	}
 	// rings given vertex by vertex: the query point q = (0, 1) on the border of the ring's box, and
 	// inside the box only thanks to the last vertex of an unclosed ring
@@ -146,7 +175,7 @@ func c02model(c *Ctx, a *c02) {
 		for _, p := range pts {
 			vals = append(vals, m.it.point(m.ptT, p.x, p.y))
 		}
-		return shape{name, m.sliceOf(m.polyT, []oval{m.sliceOf(ringT, vals)}), [][]oBoxPt{pts}}
+		return shape{name: name, val: m.sliceOf(m.polyT, []oval{m.sliceOf(ringT, vals)}), rings: [][]oBoxPt{pts}, prefilter: true}
 	}
 	shapes = append(shapes, custom("Polygon(query point on the left border of the ring's box)", []oBoxPt{{0, -601}, {604, 607}, {608, -611}}))
 	shapes = append(shapes, custom("Polygon(query point on the top border of the ring's box)", []oBoxPt{{-700, 1}, {704, -707}, {-708, -711}}))
@@ -176,13 +205,18 @@ func c02model(c *Ctx, a *c02) {
 	var onSeg, ray *types.Func
 	covMsg, edgeMsg, parMsg, unk := "", "", "", ""
 	runs := 0
+	var last shape
 	for _, sh := range shapes {
 		if covMsg != "" || edgeMsg != "" || parMsg != "" || unk != "" {
 			break
 		}
-		var segs [][2]oBoxPt
+		last = sh
+		var segs, farSegs [][2]oBoxPt
 		for _, r := range sh.rings {
 			segs = append(segs, segsOf(r)...)
+		}
+		for _, r := range sh.far {
+			farSegs = append(farSegs, segsOf(r)...)
 		}
 		// --- coverage
 		truthy = map[string]bool{}
@@ -228,6 +262,14 @@ func c02model(c *Ctx, a *c02) {
 				}
 				if count[k] != want && covMsg == "" {
 					covMsg = fmt.Sprintf("%s: %s is asked %d times about the segment v%d–v%d of a ring, want %d (every segment of the closed ring, the closing pair included, exactly once)", sh.name, pf.Name(), count[k], s[0].x/4, s[1].x/4, want)
+				}
+				delete(count, k)
+			}
+			// a ring whose box does not hold the point may be skipped, or scanned like the others
+			for _, s := range farSegs {
+				k := key(pf, s[0], s[1])
+				if count[k] > 1 && covMsg == "" {
+					covMsg = fmt.Sprintf("%s: %s is asked %d times about the segment v%d–v%d of a ring", sh.name, pf.Name(), count[k], s[0].x/4, s[1].x/4)
 				}
 				delete(count, k)
 			}
@@ -356,11 +398,11 @@ func c02model(c *Ctx, a *c02) {
 		// the query point only touches or enters only thanks to the last vertex of an unclosed ring
 		boxMsg := ""
 		for _, msg := range []string{covMsg, edgeMsg, parMsg} {
-			if strings.Contains(msg, "ring's box") || strings.Contains(msg, "extends the box") {
+			if msg != "" && last.prefilter {
 				boxMsg = msg
 			}
 		}
-		report3(c, "C02.R3", "geom#point-in-polygon(prefilter)", pos, boxMsg, "", "with the query point on the left or top border of a ring's box, or inside the box only thanks to the last vertex of an unclosed ring, every segment is still asked and the results are those of the full scan")
+		report3(c, "C02.R3", "geom#point-in-polygon(prefilter)", pos, boxMsg, "", "with the query point on the left or top border of a ring's box, inside the box only thanks to the last vertex of an unclosed ring, or in a ring listed after a ring (or member) that lies away from it, every segment of the rings whose box holds the point is still asked and the results are those of the full scan")
 		m2 := edgeMsg
 		if m2 == "" {
 			m2 = parMsg
